@@ -157,13 +157,35 @@ def struct_eq(a, b):
     return type(a).__eq__ is object.__eq__ or hasattr(a, "__next__")
 
 
-def purity(report, sig_base, what, func, make_arg, allowed_shared, case, nontrivial_hint=False, check_closure=True):
+def _added_keys(now, before, out=None):
+    """keys present in a mapping of `now` but not in the corresponding mapping of `before` (any depth)"""
+    out = [] if out is None else out
+    if isinstance(now, dict) and isinstance(before, dict):
+        out.extend(k for k in now if k not in before)
+        for k, v in before.items():
+            if k in now:
+                _added_keys(now[k], v, out)
+    elif isinstance(now, list) and isinstance(before, list):
+        for x, y in zip(now, before):
+            _added_keys(x, y, out)
+    return out
+
+
+def purity(report, sig_base, what, func, make_arg, allowed_shared, case, nontrivial_hint=False, check_closure=True,
+           classify=None):
     a1, a2 = make_arg(), make_arg()
     snap = copy.deepcopy(a1)
     ids_before = set(containers(a1))
     try:
         r1 = func(a1)
     except Exception:  # noqa: BLE001
+        # a rejected argument must be left alone as well
+        if not struct_eq(a1, snap):
+            report.case(case.get("key"), nontrivial=True, sample=lambda: {k: v for k, v in case.items() if k != "key"})
+            extra = classify("argument_mutated", a1, snap) if classify else {}
+            report.violation({**sig_base, "problem": "argument_mutated", **extra},
+                             f"{what}: the call failed and the argument changed from {codec.show(snap, 80)} to {codec.show(a1, 80)}",
+                             {k: v for k, v in case.items() if k != "key"})
         return False
     try:
         r2 = func(a2)
@@ -181,7 +203,8 @@ def purity(report, sig_base, what, func, make_arg, allowed_shared, case, nontriv
     report.outcome("pure call checked" + (" (with containers)" if nontrivial else ""))
 
     def viol(problem, text):
-        report.violation({**sig_base, "problem": problem}, f"{what}: {text}", {k: v for k, v in case.items() if k != "key"})
+        extra = classify(problem, a1, snap) if classify else {}
+        report.violation({**sig_base, "problem": problem, **extra}, f"{what}: {text}", {k: v for k, v in case.items() if k != "key"})
 
     if not struct_eq(a1, snap) or set(containers(a1)) != ids_before:
         viol("argument_mutated", f"argument changed from {codec.show(snap, 80)} to {codec.show(a1, 80)}")
@@ -272,10 +295,20 @@ def models_shard(progs):
                         # of the input that ends up in an Any field is exempt
                         own_defaults = {id(TYPES[t]["dv"]) for _, t, r in spec["fields"] if r == "dv"}   # the model itself shares these
                         return own_defaults | (set(containers(a)) if any(t in ("any",) for _, t, _ in spec["fields"]) else _dictany_values(a))
+                    # keys the generated loader reads by subscription: required leaves and every branch node of a nested path
+                    required_keys = {p[-1] for i, p in in_paths.items() if p not in (None, "target") and spec["fields"][i][2] == "req"}
+                    required_keys |= {k for p in in_paths.values() if p not in (None, "target") for k in p[:-1]}
+
+                    def classify(problem, now, before, required_keys=required_keys):
+                        # root cause discriminator: only keys of REQUIRED fields were inserted into a mapping with __missing__
+                        added = _added_keys(now, before)
+                        if problem == "argument_mutated" and added and all(k in required_keys for k in added):
+                            return {"cause": "required_key_read_by_subscription_from_a_mapping_with___missing__"}
+                        return {}
                     purity(report, {"check": "C20.model_load"}, f"load {spec['kind']} {spec['fields']} {cfgs} <- {iname} [{mode_name(mode)}]",
                            prog.loaders[mode], make, allowed,
                            {"key": ("ml", spec["kind"], str(spec["fields"]), str(cfgs), iname, mode), "kind": "model_load", "spec": spec,
-                            "configs": cfgs, "input": iname, "mode": list(mode)})
+                            "configs": cfgs, "input": iname, "mode": list(mode)}, classify=classify)
         try:
             out_paths = field_paths(spec, schema, "out")
             validate(spec, schema, "out", out_paths)
